@@ -364,6 +364,16 @@ class Check:
         with open(os.path.join(ROOT, "known_findings.json")) as f:
             self.kf = json.load(f)
 
+    def progress(self, text):
+        """note the step about to be made with the in-process extension: if the process dies in it, tools/crash_report.py
+        names this step as the failing input"""
+        try:
+            os.makedirs(os.path.join(ROOT, ".build"), exist_ok=True)
+            with open(os.path.join(ROOT, ".build", f"progress-{self.pid}.txt"), "w") as f:
+                f.write(text)
+        except OSError:
+            pass
+
     def findings(self):
         return [k for k in self.kf.get("findings", []) if k["property"] == self.pid]
 
